@@ -73,7 +73,7 @@ def snapshot (m : MemFs) : String :=
   let one (e : Key × ObjId) : String :=
     let d := m.obj e.2
     let listing := if d.dir then ",".intercalate ((m.dirFiles d).map fun o => hx (baseName (m.obj o).name)) else ""
-    s!"{hx e.1.render}:{if d.dir then "d" else "f"}:{if d.dir then 42 else d.data.length}:{d.mode}:{hexOrDash d.data}:{listing}"
+    s!"{hx e.1.render}:{if d.dir then "d" else "f"}:{if d.dir then 42 else d.data.length}:{d.mode}:{if d.dir then "-" else hexOrDash d.data}:{listing}"
   "snap " ++ "|".intercalate (es.map one)
 
 end AferoVerif.Engine
